@@ -200,7 +200,8 @@ class Param():
             var_id = struct.unpack('<H', pk.data[id_index:id_index + 2])[0]
         else:
             var_id = pk.data[0]
-        element = self.toc.get_element_by_id(var_id)
+        toc = self.toc
+        element = toc.get_element_by_id(var_id)
         if element:
             if self._useV2:
                 value = struct.unpack(element.pytype, pk.data[id_index + 2:])[0]
@@ -222,8 +223,9 @@ class Param():
             self.all_update_callback.call(complete_name, value_s)
 
             # Once all the parameters are updated call the
-            # callback for "everything updated"
-            if self._check_if_all_updated() and not self.is_updated:
+            # callback for "everything updated". A callback above may have
+            # closed the link: the TOC is gone then and nothing is complete.
+            if self.toc is toc and self._check_if_all_updated() and not self.is_updated:
                 self.is_updated = True
                 self._initialized.set()
                 self.all_updated.call()
